@@ -51,7 +51,15 @@ TestPearsonDef(e) == \A a \in 1..N : \A b \in 1..N :
 \* (bins are exact in floating point when the common range is a power of two: 1, 2 or 4 here)
 TestMIDef(e, key, nb) == (MaxV(e) - MinV(e)) \in {1, 2, 4} => \A a \in 1..N : \A b \in 1..N :
    Close(e.obs[key][a][b], IF a = b THEN 0 ELSE BinnedMI6(Orig(e, a), Surr(e, b), MinV(e), MaxV(e), nb), Tol)
+CovMat(e) == [a \in 1..N |-> [b \in 1..N |-> Cov(Col(e, a), Col(e, b))]]
+PartialDef(e) == "partial" \notin DOMAIN e.obs.x => \A a \in 1..N : \A b \in 1..N :
+   (a # b /\ PartialDefined(CovMat(e), a, b)) =>
+   LET r3 == RDiv(e.obs.partial[a][b], 1000) IN
+   /\ e.obs.partial[a][b] >= -5
+   /\ Abs(r3 * r3 - PartialSq6(CovMat(e), a, b)) <= 2 * Abs(r3) * 2 + 2500
+   /\ Close(e.obs.partial[a][b], e.obs.partial[b][a], 5)
 Checks(e) == <<
+  <<"PartialCorrDef|PartialCorrelationClimateNetwork.similarity_measure", PartialDef(e)>>,
   <<"MeanProductDef|Surrogates.test_pearson_correlation", TestPearsonDef(e)>>,
   <<"BinnedMIDef|Surrogates.test_mutual_information(2)", TestMIDef(e, "tmi2", 2)>>,
   <<"BinnedMIDef|Surrogates.test_mutual_information(4)", TestMIDef(e, "tmi4", 4)>>,
@@ -70,7 +78,8 @@ GaussUndefined(e) == \E a \in 1..N : \E b \in 1..N : \E L \in 0..e.taumax :
    LET x == LagX(e.data, a, L, e.taumax)  y == LagY(e.data, b, e.taumax) IN
    a # b /\ (Var(x) = 0 \/ Var(y) = 0 \/ Var(x) * Var(y) = Cov(x, y) * Cov(x, y))
 Verdict(e) ==
-  IF DOMAIN e.obs.x \ (IF GaussUndefined(e) THEN {"gauss"} ELSE {}) # {} THEN <<"REJECT", "Applicable", JoinSet({k \o ":" \o e.obs.x[k] : k \in DOMAIN e.obs.x}), Tags(e)>>
+  \* (with a constant series the correlation matrix has no inverse: the partial correlation is undefined)
+  IF DOMAIN e.obs.x \ ((IF GaussUndefined(e) THEN {"gauss"} ELSE {}) \cup (IF Constant(e) THEN {"partial"} ELSE {})) # {} THEN <<"REJECT", "Applicable", JoinSet({k \o ":" \o e.obs.x[k] : k \in DOMAIN e.obs.x}), Tags(e)>>
   ELSE LET f == FailsOf(Checks(e), "") IN
        IF f = {} THEN <<"ACCEPT", "", "", Tags(e)>> ELSE <<"REJECT", "Multi", JoinSet(f), Tags(e)>>
 Verdicts == TLCEval([k \in 1..Len(Trace) |-> Verdict(Trace[k])])
